@@ -382,7 +382,10 @@ func c18KeysCheck(ctx *vfCtx, c c18KeysCase) {
 	})
 	// lookup-request keys are parsed from text in notary requests
 	var req PublicKeyLookupRequest
-	s.call("PublicKeyLookupRequest.UnmarshalText", func() { _ = req.UnmarshalText([]byte(c.ServerName + "/" + c.KeyID)); _ = req.UnmarshalText([]byte(c.KeyID)) })
+	s.call("PublicKeyLookupRequest.UnmarshalText", func() {
+		_ = req.UnmarshalText([]byte(c.ServerName + "/" + c.KeyID))
+		_ = req.UnmarshalText([]byte(c.KeyID))
+	})
 }
 
 func c18GenKeys(t *rapid.T) c18KeysCase {
